@@ -111,6 +111,9 @@ def plan(tier, seed):
             units.append({"kind": "pad", "H": h, "W": w, "start": s, "stop": e, "w": (e - s) * 70 * 0.35})
     for s in range(0, NRAND[tier], 50):
         units.append({"kind": "rand", "start": s, "stop": s + 50, "w": 50 * 8.0})
+    # realistic PSF sizes (17x17 .. 25x25: footprints of 289 .. 625 pixels) on frames of ~45 pixels
+    for b in range(6 if tier == "quick" else 60):
+        units.append({"kind": "bigkernel", "index": b, "w": 3000.0})
     if tier == "thorough":
         units.append({"kind": "suite", "w": 200})      # the repository's own tests with the contracts installed
     return units
@@ -605,6 +608,36 @@ def run_unit(ctx, u):
                     if variant in (3, 4) and k[1] == 1:
                         continue
                     check_padded(ctx, inner, k, variant, gen.rng_for(ctx.seed, NO, 2, u["H"], u["W"], bits, k[0], k[1], variant))
+    elif u["kind"] == "bigkernel":
+        b = u["index"]
+        rng = gen.rng_for(ctx.seed, NO, 4, b)
+        k = [(21, 21), (17, 17), (25, 25), (21, 17), (17, 25)][b % 5]
+        Hf = Wf = 46
+        m = np.ones((Hf, Wf), bool)
+        if b % 2 == 0:
+            # a block of a x c unmasked pixels with a masked patch inside, sized so that some masked pixels see exactly 256 (or 512)
+            # unmasked pixels in their footprint (counts that wrap in narrow integer types)
+            a, c, patch = [(17, 16, (4, 4)), (16, 17, (2, 8)), (18, 15, (2, 7)), (20, 13, (2, 2)), (16, 16, None)][(b // 2) % 5]
+            y0, x0 = 14 + int(rng.integers(0, 3)), 14 + int(rng.integers(0, 3))
+            m[y0:y0 + a, x0:x0 + c] = False
+            if patch is not None:
+                py, px = y0 + a // 2 - patch[0] // 2, x0 + c // 2 - patch[1] // 2
+                m[py:py + patch[0], px:px + patch[1]] = True
+            fam = "block_with_masked_patch"
+        else:
+            yy, xx = np.indices((Hf, Wf))
+            r = np.hypot(yy - 22.5 + rng.uniform(-0.5, 0.5), xx - 22.5 + rng.uniform(-0.5, 0.5))
+            r0 = float(rng.uniform(2.0, 6.0))
+            m = ~((r >= r0) & (r <= r0 + float(rng.uniform(3.0, 6.5))))
+            fam = "annulus"
+        ctx.classes["family:bigkernel_" + fam] += 1
+        if ctx.begin(mask_key("bigkernel", m) + ":%dx%d" % k):
+            aa = ctx.aa
+            geometry = gen.scales_origin(rng)
+            mask = aa.Mask2D(mask=m.copy(), pixel_scales=geometry[0], origin=geometry[1])
+            centres = ref.pixel_centres(m.shape, geometry[0], geometry[1])
+            check_blurring(ctx, m, mask, geometry, centres, k)
+            ctx.case("bigkernel", m, k, nontrivial=True, cls=["bigkernel:%dx%d" % k, "bigkernel:" + fam], sample=None)
     elif u["kind"] == "rand":
         for i in range(u["start"], u["stop"]):
             rng = gen.rng_for(ctx.seed, NO, 3, i)
